@@ -13,7 +13,7 @@ ok=0; bad=0
 for sd in seeded/*/; do
   name=$(basename $sd)
   echo "$name" | grep -q -- "$pat" || continue
-  id=${name%-2}
+  id=${name%-[0-9]}
   [ -f $sd/patch.diff ] || continue
   d=$root/$name; mkdir -p $d/verif/evidence $d/verif/replays
   for x in contracts claims bounded known_findings.json; do ln -s /verif/$x $d/verif/$x; done
